@@ -529,7 +529,12 @@ class ZorgFileCompiler(ZorgFileListener):
 
             for bullet in bullets:
                 words = bullet.split()
-                if words and zdt.is_short_date_spec(words[0]):
+                # NOTE: A modify date spec only exists in front of a ZID.
+                if (
+                    len(words) > 1
+                    and zdt.is_short_date_spec(words[0])
+                    and zdt.is_zid(words[1])
+                ):
                     words.pop(0)
                 if words and zdt.is_zid(words[0]):
                     words.pop(0)
